@@ -67,6 +67,7 @@ MENU = {
     'eqnstar': art('\\begin{eqnarray*}a&=&b\\\\ c&=&d\\end{eqnarray*}'),
     'eqn': art('\\begin{eqnarray}a&=&b\\label{r1}\\\\ c&=&d\\\\ e&=&f\\end{eqnarray}\\begin{equation}g\\label{r2}\\end{equation}\\ref{r1}\\ref{r2}'),
     'inlinemath': art('u \\(a+b\\) v \\(c\\) w'),
+    'unkpkg': '\\documentclass{article}\\usepackage{zzunknownpkg}\\usepackage[opt]{zzotherpkg}\\begin{document}u v\\end{document}',
     'input': art('\\input{zz-no-such-file} t \\IfFileExists{zz-no-such-file.tex}{ya}{na}'),
     # programs that register a column type through the Python API before using it (same letter, different attributes)
     'pycolA': art('\\begin{tabular}{lY}u&v\\end{tabular}'),
@@ -185,15 +186,16 @@ def run_history(arg):
         last = i == len(hist) - 1
         if last and restore_before_last:
             snap.restore()
+            snap.restore_modules()
             for k in list(os.environ):
                 if k.startswith('TEX'):
                     del os.environ[k]
             os.environ.update(env0)
-        before = snap.diff() + envdiff()
+        before = snap.diff() + snap.diff_modules() + envdiff()
         xml, files, err = process(name, do_render=(last and render_last))
         out.append({'doc': name, 'xml': core.h64(xml) if xml is not None else None, 'xml_text': xml if last else None,
                     'files': core.h64(files) if files is not None else None, 'error': err,
-                    'leak_before': before, 'leak_after': snap.diff() + envdiff()})
+                    'leak_before': before, 'leak_after': snap.diff() + snap.diff_modules() + envdiff()})
     return out
 
 
